@@ -20,6 +20,8 @@ def gen_heap(rng, n, falsy=True):
         # a collection of collections: groups (empty, overlapping, repeated) next to scalars
         o.append([rng.choice([[rng.randint(lo, 3) for _ in range(rng.choice([0, 1, 2, 2, 3]))], rng.randint(lo, 3)])
                   if rng.random() < 0.8 else [rng.randint(lo, 3)] * 2 for _ in range(rng.choice([0, 1, 2, 3]))])
+        # a MAPPING (a dict in Python): as a collection it is the sequence of its keys, in insertion order
+        o.append(rng.sample(range(lo, 4), rng.choice([0, 1, 2, 3])))
     return heap
 
 
@@ -211,8 +213,95 @@ def gen_case_the(rng, tier):
     return c
 
 
+def gen_case_forall_disj(rng):
+    """two free variables, 2-3 universal values, a disjunction whose sides mention DIFFERENT free variables (a row of one side
+    binds one of them and leaves the other open), alone or below a conjunction"""
+    nobj = rng.randint(4, 7)
+    heap = gen_heap(rng, nobj, True)
+    for o in heap:
+        o[0], o[1] = rng.randint(0, 2), rng.randint(0, 2)
+        o[8] = o[0] >= 2
+    fa = lambda k: ['map', ['f', F[rng.choice('ab')]], ['var', k]]
+    ops = ['==', '!=', '<', '>=', '>']
+    x, y = rng.sample([1, 2], 2)
+    disj = ['or', ['cmp', rng.choice(ops), fa(y), fa(9)], ['cmp', rng.choice(ops), fa(x), fa(9)], rng.choice(['fn', 'op'])]
+    r = rng.random()
+    if r < 0.45:
+        body = disj
+    elif r < 0.8:
+        body = ['and', ['cmp', rng.choice(ops), fa(rng.choice([1, 2])), rng.choice([fa(9), ['lit', rng.randint(0, 2)]])], disj, rng.choice(['fn', 'op'])]
+    else:
+        body = ['and', disj, ['cmp', rng.choice(ops), fa(rng.choice([1, 2])), ['lit', rng.randint(0, 2)]], 'fn']
+    doms = [[1, rng.sample(range(nobj), rng.randint(2, 3))], [2, rng.sample(range(nobj), rng.randint(2, 3))],
+            [9, rng.sample(range(nobj), rng.randint(2, 3))]]
+    sel = [['var', 1], ['var', 2]]
+    rng.shuffle(sel)
+    return dict(heap=heap, doms=doms, binders=[['var', 1], ['var', 2]], sel=sel, cond=['forall', 9, body], form='set_of')
+
+
+def gen_case_forall_expr(rng):
+    """for_all(u.peer, c): the universal argument is an EXPRESSION over the universal variable; several values of u share one
+    value of it (few distinct peers), and c depends on u through another path as well (an attribute of u itself)"""
+    nobj = rng.randint(4, 7)
+    heap = gen_heap(rng, nobj, True)
+    peers = rng.sample(range(nobj), 2)
+    for o in heap:
+        o[0], o[1] = rng.randint(0, 2), rng.randint(0, 2)
+        o[7] = {'o': rng.choice(peers)}
+        o[8] = o[0] >= 2
+    fa = lambda k: ['map', ['f', F[rng.choice('ab')]], ['var', k]]
+    body = ['cmp', rng.choice(['==', '!=', '<', '>=']), fa(1), fa(9)]
+    if rng.random() < 0.4:
+        body = ['and', body, ['cmp', rng.choice(['==', '!=']), ['map', ['f', F['a']], ['map', ['f', F['peer']], ['var', 9]]],
+                              ['lit', rng.randint(0, 2)]], 'fn']
+    doms = [[1, rng.sample(range(nobj), rng.randint(2, 3))], [9, rng.sample(range(nobj), rng.randint(2, 4))]]
+    return dict(heap=heap, doms=doms, binders=[['var', 1]], sel=[['var', 1]],
+                cond=['forall', 9, body, ['map', ['f', F['peer']], ['var', 9]]], form=rng.choice(['entity', 'set_of']))
+
+
+def gen_case_forall_eq(rng):
+    """one free variable compared for equality with the universal one, 3-4 universal values: the passes of different values are
+    often disjoint (the intersection is empty from some value on) while a later pass is non-empty again"""
+    nobj = rng.randint(5, 8)
+    heap = gen_heap(rng, nobj, True)
+    for o in heap:
+        o[0], o[1] = rng.randint(0, 2), rng.randint(0, 2)
+        o[8] = o[0] >= 2
+    body = ['cmp', rng.choice(['==', '==', '!=']), ['map', ['f', F[rng.choice('ab')]], ['var', 1]],
+            ['map', ['f', F[rng.choice('ab')]], ['var', 9]]]
+    if rng.random() < 0.3:
+        body = ['cmp', body[1], body[3], body[2]]
+    doms = [[1, rng.sample(range(nobj), rng.randint(2, 4))], [9, rng.sample(range(nobj), rng.randint(3, 4))]]
+    return dict(heap=heap, doms=doms, binders=[['var', 1]], sel=[['var', 1]], cond=['forall', 9, body],
+                form=rng.choice(['entity', 'set_of']))
+
+
 def gen_case_forall(rng, tier):
     """for_all(u, c') possibly and-ed with a condition on the free variables; u = key 9 with its own non-empty domain"""
+    if rng.random() < 0.1:
+        # two free variables over the SAME objects and two universal values whose attributes mirror each other: the rows of the
+        # two passes hold the same objects under exchanged variables (x1 = p, x2 = q for one value, x1 = q, x2 = p for the other)
+        nobj = rng.randint(4, 6)
+        heap = gen_heap(rng, nobj, True)
+        u1, u2 = rng.sample(range(nobj), 2)
+        p_, q_ = rng.sample([0, 1, 2, 3], 2)
+        heap[u1][0], heap[u1][1], heap[u2][0], heap[u2][1] = p_, q_, q_, p_
+        for o in heap:
+            o[8] = o[0] >= 2
+        fx, fy = rng.choice('ab'), rng.choice('ab')
+        body = ['and', ['cmp', '==', ['map', ['f', F[fx]], ['var', 1]], ['map', ['f', F['a']], ['var', 9]]],
+                ['cmp', '==', ['map', ['f', F[fy]], ['var', 2]], ['map', ['f', F['b']], ['var', 9]]], rng.choice(['fn', 'op'])]
+        everything = list(range(nobj))
+        doms = [[1, rng.sample(everything, nobj)], [2, rng.sample(everything, nobj)], [9, [u1, u2] if rng.random() < 0.7 else [u1]]]
+        sel = [['var', 1], ['var', 2]]
+        rng.shuffle(sel)
+        return dict(heap=heap, doms=doms, binders=[['var', 1], ['var', 2]], sel=sel, cond=['forall', 9, body], form='set_of')
+    if rng.random() < 0.1:
+        return gen_case_forall_eq(rng)
+    if rng.random() < 0.2:
+        return gen_case_forall_disj(rng)
+    if rng.random() < 0.1:
+        return gen_case_forall_expr(rng)
     nfree = rng.choice([1, 1, 2])
     heap, doms = _base(rng, nfree, dom_max=3)
     nobj = len(heap)
@@ -311,10 +400,15 @@ def gen_case_sub(rng, tier):
     return c
 
 
-def gen_case_flat(rng, tier):
+def gen_case_flat(rng, tier, cond_only=False):
     """parent variable 1, flatten node 5 over parent.items / parent.pair / a scalar attribute"""
     heap, doms = _base(rng, 1, dom_max=4)
-    inner_field = rng.choice(['items', 'items', 'items', 'pair', 'a', 'groups'])
+    inner_field = rng.choice(['items', 'items', 'items', 'pair', 'a', 'groups', 'dmap'])
+    if cond_only:
+        inner_field = rng.choice(['items', 'items', 'pair'])
+        for i in doms[0][1]:
+            if inner_field == 'items' and len(heap[i][F['items']]) < 2:
+                heap[i][F['items']] = [rng.choice(INT_ALPHA) for _ in range(rng.randint(2, 3))]
     ft = ['map', ['f', F[inner_field]], ['var', 1]]
     flat = ['flat', 5, ft]
     ops = ['==', '!='] if inner_field == 'groups' else OPS        # (a tuple and an int cannot be ordered: Python raises)
@@ -334,6 +428,26 @@ def gen_case_flat(rng, tier):
                 ['cmp', '==', flat, ['map', ['f', F['b']], ['var', 1]]], 'fn']
     else:
         cond = ['in', flat, ['map', ['f', F['pair']], ['var', 1]]]
+    if cond_only or rng.random() < 0.2:
+        # the flattened expression is used by the condition only (the parent alone is selected): a parent qualifies through ANY of
+        # its elements, or through a condition on itself; optionally a further condition on the parent comes first
+        par = lambda: ['cmp', rng.choice(['==', '!=']), ['map', ['f', F[rng.choice('ab')]], ['var', 1]], ['lit', rng.choice(INT_ALPHA)]]
+        firsts = [heap[i][F[inner_field]][0] for i in doms[0][1]
+                  if isinstance(heap[i][F[inner_field]], list) and len(heap[i][F[inner_field]]) >= 2
+                  and isinstance(heap[i][F[inner_field]][0], int)]
+        if cond_only and firsts and inner_field != 'groups':
+            # (a parent whose FIRST element matches and a later one does not: the verdicts of the elements of one parent differ)
+            cond = ['or', ['cmp', rng.choice(['==', '==', '>=', '<=']), flat, ['lit', rng.choice(firsts)]], par(), rng.choice(['fn', 'op'])]
+        else:
+            cond = ['or', ['cmp', rng.choice(ops), flat, ['lit', rng.choice(INT_ALPHA)]], par(), rng.choice(['fn', 'op'])]
+        if rng.random() < 0.5:
+            cond = ['and', par(), cond, rng.choice(['fn', 'args'])]
+        sel = [['var', 1]]
+        # (a parent WITHOUT elements that qualifies through the condition on itself: UNNEST read as a join drops it, the library
+        #  keeps it - the property speaks of the rows of the elements, so that corner is left out: every collection gets an element)
+        for i in doms[0][1]:
+            if isinstance(heap[i][F[inner_field]], list) and not heap[i][F[inner_field]]:
+                heap[i][F[inner_field]] = [rng.choice(INT_ALPHA)]
     return dict(heap=heap, doms=doms, binders=[['var', 1], ['flat', 5, ft]], sel=sel, cond=cond, form='set_of' if len(sel) > 1 or rng.random() < 0.5 else 'entity',
                 list_items=rng.random() < 0.5)
 
@@ -371,7 +485,7 @@ def gen_case_flat_scalar(rng, tier=None):
 def gen_case_concat(rng, tier):
     """concatenate(x.items) (node 6, inner variable 1) alone, or tested for (non-)membership by an outer variable 2"""
     heap, doms = _base(rng, 2, dom_max=4)
-    inner_field = rng.choice(['items', 'items', 'pair', 'a', 'groups', 'groups'])
+    inner_field = rng.choice(['items', 'items', 'pair', 'a', 'groups', 'groups', 'dmap'])
     ct = ['map', ['f', F[inner_field]], ['var', 1]]
     flat_inside = inner_field == 'groups' and rng.random() < 0.5
     cb = ['concat', 6, 1, ct]
@@ -527,6 +641,9 @@ def gen_case_conj_under_disj(rng, tier=None):
 def gen_pair(rng, tier):
     nv = rng.choice([1, 2, 2, 3])
     orig = gen_case(rng, nvars=nv, falsy=True, neg=True, maxdepth=3, select=rng.choice(['all', 'some']), dom_max=3)
+    if rng.random() < 0.12:
+        # a universal condition: the order of the universal values must not matter
+        orig = gen_case_forall_eq(rng) if rng.random() < 0.6 else gen_case_forall(rng, tier)
     if rng.random() < 0.4:
         # a conjunction joining two variables as one side of a disjunction, only ONE of the two selected, the other one needed by
         # the other side of the disjunction (rows that are false for the conjunction must be kept apart per value of the
